@@ -56,6 +56,10 @@ class C17(Check):
             for b in list(strings(A, 2)):
                 yield "replacea 1 %s %s" % (hx(a), hx(b)), "replace-alias"
                 yield "replacea 2 %s %s" % (hx(a), hx(b)), "replace-alias"
+        # the default infix (one blank) of both join overloads
+        for n in range(0, 4):
+            for l in itertools.product(["", "a", "b ", " "], repeat=n):
+                yield "joind %s" % wl(l), "join-default-infix"
         # single-pass iterators (std::istream_iterator) through the iterator overload of join
         words = ["a", "b", "ab", "-", "a,b"]
         for n in range(0, 4 if tier == "quick" else 5):
@@ -164,6 +168,8 @@ class C17(Check):
             return w[2] != "-"
         if w[0] == "replacea":
             return w[2] != "-"
+        if w[0] == "joind":
+            return "," in w[1]
         if w[0] == "joinn":
             return "/" in w[3]
         if w[0] == "joinh":
@@ -186,6 +192,11 @@ class C17(Check):
                 el = r.split(",") if r != "." else []
                 for j in range(len(el)):
                     yield " ".join(w[:3] + ["/".join(rows[:i] + [",".join(el[:j] + el[j+1:]) or "."] + rows[i+1:])])
+            return
+        if w[0] == "joind":
+            el = w[1].split(",") if w[1] != "." else []
+            for i in range(len(el)):
+                yield " ".join(w[:1] + [",".join(el[:i] + el[i+1:]) or "."])
             return
         if w[0] == "joinh":
             el = w[2].split(",") if w[2] != "." else []
